@@ -275,65 +275,81 @@ def same(a, b):
     return F.close(a, b)
 
 
-def compare_homeo(case, impl, models):
-    """correspondence: model (per group) vs implementation (per parameter element)"""
+def compare_homeo(case, impl, models, extra=()):
+    """correspondence: model (per group of receptive units) vs implementation (per parameter element).
+    extra: [(case, impl record, models)] of the OTHER cells writing into the same accumulator (Biclique layers: cells that
+    share the connection and train the same parameter) - the accumulator's parts are the sums over the cells."""
+    members = [(case, impl, models)] + list(extra)
     n_tot, groups, e2g = homeo_geometry(case)
     B, T = case["B"], len(case["post"])
-    for g, (units, m) in enumerate(zip(groups, models)):
-        if isinstance(m, Exception):
-            return {"model_error": str(m)[:600]}
-        rates, parts, accs, upd, newv = m
+    for g, units in enumerate(groups):
+        ms = []
+        for cc, ii, mm in members:
+            m = mm[g]
+            if isinstance(m, Exception):
+                return {"model_error": str(m)[:600]}
+            ms.append(m)
+            for t in range(T):       # every cell's own rate monitor
+                ir = decl(ii["steps"][t]["rate"])
+                want = [ir[b * n_tot + u] for b in range(B) for u in units]
+                got = [F.dec_float(x) for x in m[0][t][0]] if m[0][t] else None
+                if got is None or len(got) != len(want) or any(not F.close(a, b) for a, b in zip(got, want)):
+                    return {"what": "spike_rate monitor", "step": t, "group": g, "model": got, "impl": want, "cell": cc.get("bic")}
         elems = [e for e, gg in enumerate(e2g) if gg == g]
         for t in range(T):
             st = impl["steps"][t]
-            ir = decl(st["rate"])
-            want = [ir[b * n_tot + u] for b in range(B) for u in units]
-            got = [F.dec_float(x) for x in rates[t][0]] if rates[t] else None
-            if got is None or len(got) != len(want) or any(not F.close(a, b) for a, b in zip(got, want)):
-                return {"what": "spike_rate monitor", "step": t, "group": g, "model": got, "impl": want}
-            for key, src in (("pos", parts[t][0]), ("neg", parts[t][1]), ("apos", accs[t][0]), ("aneg", accs[t][1])):
-                mv = dec_opt(src)
+            for key, sel in (("pos", lambda m: m[1][t][0]), ("neg", lambda m: m[1][t][1]),
+                             ("apos", lambda m: m[2][t][0]), ("aneg", lambda m: m[2][t][1])):
+                mv = None
+                for m in ms:
+                    mv = add_opt(mv, dec_opt(sel(m)))
                 iv = decl(st[key])
                 for e in elems:
                     x = None if iv is None else iv[e]
                     if not same(mv, x):
-                        return {"what": key + " part", "step": t, "element": e, "model": mv, "impl": x}
-        aft = decl(impl["after"])
-        for e in elems:
-            if not F.close(F.dec_float(newv), aft[e]):
-                return {"what": "parameter after update()", "element": e, "model": F.dec_float(newv), "impl": aft[e]}
+                        return {"what": key + " part", "step": t, "element": e, "model": mv, "impl": x, "cells_on_accumulator": len(ms)}
+        if len(ms) == 1:
+            aft = decl(impl["after"])
+            for e in elems:
+                if not F.close(F.dec_float(ms[0][4]), aft[e]):
+                    return {"what": "parameter after update()", "element": e, "model": F.dec_float(ms[0][4]), "impl": aft[e]}
     if not impl.get("cleared"):
         return {"what": "accumulator not cleared by update()"}
     return None
 
 
-def oracle_homeo(case, impl):
-    """-> list of (detail, signature).  Written from the docstring of LinearHomeostasis and the property statement."""
+def oracle_homeo(case, impl, extra=()):
+    """-> list of (detail, signature).  Written from the docstring of LinearHomeostasis and the property statement.
+    extra: the other cells (cases) writing into the same accumulator; every cell is judged with ITS effective plasticity,
+    target and reduction and its own neuron group's spike history, the accumulator holds the sum."""
+    members = [case] + list(extra)
     n_tot, groups, e2g = homeo_geometry(case)
-    B, T, lam, param = case["B"], len(case["post"]), case["plasticity"], case["param"]
-    red = case.get("reduction") or "mean"
+    B, T, param = case["B"], len(case["post"]), case["param"]
     sgn = -1.0 if param == "delay" else 1.0
-    counts = [[0] * n_tot for _ in range(B)]
+    counts = [[[0] * n_tot for _ in range(B)] for _ in members]
     fails = []
     acc_p = [0.0] * len(e2g)
     acc_n = [0.0] * len(e2g)
     seen_finding = False
     for t in range(T):
-        for b in range(B):
-            for u in range(n_tot):
-                counts[b][u] += case["post"][t][b][u]
+        for k, cc in enumerate(members):
+            for b in range(B):
+                for u in range(n_tot):
+                    counts[k][b][u] += cc["post"][t][b][u]
         st = impl["steps"][t]
         pos, neg = decl(st["pos"]), decl(st["neg"])
         for g, units in enumerate(groups):
-            def expect(which):
-                tg = homeo_targets(case, units, t, which)
+            ks_all, want_p, want_n, clampmax = [], 0.0, 0.0, 0.0
+            for k, cc in enumerate(members):
+                tg = homeo_targets(cc, units, t, "doc")
+                red = cc.get("reduction") or "mean"
                 # documented per-sample term: (+-)lambda * mean over the receptive units of (r* - r) / r*
-                ks = [sgn * lam * math.fsum((tg[b][j] - counts[b][u] / (t + 1)) / tg[b][j] for j, u in enumerate(units)) / len(units)
+                ks = [sgn * cc["plasticity"] * math.fsum((tg[b][j] - counts[k][b][u] / (t + 1)) / tg[b][j] for j, u in enumerate(units)) / len(units)
                       for b in range(B)]
-                return (ks, red_apply(red, [max(k, 0.0) for k in ks]),     # potentiating part of the documented split
-                        red_apply(red, [max(-k, 0.0) for k in ks]),        # depressing MAGNITUDE of the documented split
-                        red_apply(red, [min(k, 0.0) for k in ks]))         # negative-valued pattern of the known finding
-            ks, want_p, want_n, clampmax = expect("doc")
+                ks_all.append(ks)
+                want_p += red_apply(red, [max(x, 0.0) for x in ks])      # potentiating part of the documented split
+                want_n += red_apply(red, [max(-x, 0.0) for x in ks])     # depressing MAGNITUDE of the documented split
+                clampmax += red_apply(red, [min(x, 0.0) for x in ks])    # negative-valued pattern of the known finding
             for e in [e for e, gg in enumerate(e2g) if gg == g]:
                 gp = 0.0 if pos is None else pos[e]
                 gn = 0.0 if neg is None else neg[e]
@@ -344,7 +360,8 @@ def oracle_homeo(case, impl):
                 pat_n = F.close(gn, clampmax, ab=1e-11)
                 if not ok_p:
                     fails.append(({"what": "potentiating part differs from max(k, 0) of the documented rule", "step": t,
-                                   "element": e, "got": gp, "want": want_p, "target": homeo_tg(case, t, "doc")},
+                                   "element": e, "got": gp, "want": want_p, "targets": [homeo_tg(cc, t, "doc") for cc in members],
+                                   "cells_on_accumulator": len(members)},
                                   {"kind": "homeostasis_pos_part", "param": param}))
                     return fails
                 if ok_n:
@@ -352,7 +369,8 @@ def oracle_homeo(case, impl):
                 if pat_n:     # (amax: the pattern may be 0 where a magnitude was due)
                     if not seen_finding:
                         seen_finding = True
-                        above = all(k * sgn * (1 if lam >= 0 else -1) < 0 for k in ks)
+                        lam = case["plasticity"]
+                        above = all(k * sgn * (1 if lam >= 0 else -1) < 0 for k in ks_all[0])
                         fails.append(({"what": "depressing part handed to the updater is NEGATIVE-valued (k.clamp_max(0)); "
                                                "pos - neg = |k|: the parameter moves away from the target",
                                        "step": t, "element": e, "neg_part": gn, "expected_magnitude": want_n,
@@ -361,7 +379,8 @@ def oracle_homeo(case, impl):
                                       {"kind": FINDING_KIND, "param": param}))
                     continue
                 fails.append(({"what": "depressing part is neither the documented magnitude nor the known negative pattern",
-                               "step": t, "element": e, "got": gn, "want": want_n}, {"kind": "homeostasis_neg_part", "param": param}))
+                               "step": t, "element": e, "got": gn, "want": want_n, "cells_on_accumulator": len(members)},
+                              {"kind": "homeostasis_neg_part", "param": param}))
                 return fails
     # routing: the applied change is U(param, pos) - L(param, neg) for the installed bound functions
     bef, aft = decl(impl["before"]), decl(impl["after"])
@@ -466,29 +485,51 @@ def q_stdp(case, ent):
     return f"run_stdp {cfg} {ent['k']}%nat {B}%nat {F.coq_list(steps)} {q_bind(case.get('bound'))} {q(case.get('w0', 0.5))}"
 
 
-def compare_stdp(case, impl, ents, models):
-    T = len(case["pre"])
-    for ent, m in zip(ents, models):
-        if isinstance(m, Exception):
-            return {"model_error": str(m)[:600]}
-        if m[0] != 0:
-            return {"what": "model rejects the configuration", "model": m}
-        _, parts, accs, upd, newv = m
-        e = ent["idx"]
+def add_opt(a, b):
+    if a is None:
+        return b
+    if b is None:
+        return a
+    return a + b
+
+
+def compare_stdp_multi(members, impl):
+    """members: [(case, ents, models)] - the cells that write into ONE accumulator (one cell, or the cells of a Biclique
+    that share the connection); the accumulator's parts are the sums of the cells' parts (None = no cell handed one)"""
+    case0, ents0, _ = members[0]
+    T = len(case0["pre"])
+    for k, ent0 in enumerate(ents0):
+        e = ent0["idx"]
+        ms = []
+        for case, ents, models in members:
+            m = models[k]
+            if isinstance(m, Exception):
+                return {"model_error": str(m)[:600]}
+            if m[0] != 0:
+                return {"what": "model rejects the configuration", "model": m}
+            ms.append(m)
         for t in range(T):
             st = impl["steps"][t]
-            for key, src in (("pos", parts[t][0]), ("neg", parts[t][1]), ("apos", accs[t][0]), ("aneg", accs[t][1])):
-                mv = dec_opt(src)
+            for key, sel in (("pos", lambda m: m[1][t][0]), ("neg", lambda m: m[1][t][1]),
+                             ("apos", lambda m: m[2][t][0]), ("aneg", lambda m: m[2][t][1])):
+                mv = None
+                for m in ms:
+                    mv = add_opt(mv, dec_opt(sel(m)))
                 iv = decl(st[key])
                 x = None if iv is None else iv[e]
                 if not same(mv, x):
-                    return {"what": key + " part", "step": t, "element": e, "model": mv, "impl": x}
-        aft = decl(impl["after"])
-        if not F.close(F.dec_float(newv), aft[e]):
-            return {"what": "weight after update()", "element": e, "model": F.dec_float(newv), "impl": aft[e]}
+                    return {"what": key + " part", "step": t, "element": e, "model": mv, "impl": x, "cells_on_accumulator": len(ms)}
+        if len(ms) == 1:
+            aft = decl(impl["after"])
+            if not F.close(F.dec_float(ms[0][4]), aft[e]):
+                return {"what": "weight after update()", "element": e, "model": F.dec_float(ms[0][4]), "impl": aft[e]}
     if not impl.get("cleared"):
         return {"what": "accumulator not cleared by update()"}
     return None
+
+
+def compare_stdp(case, impl, ents, models):
+    return compare_stdp_multi([(case, ents, models)], impl)
 
 
 def stdp_terms(case, ent):
@@ -528,15 +569,51 @@ def stdp_terms(case, ent):
     return out
 
 
-def oracle_stdp(case, impl, ents):
-    """parts >= 0; parts = split of the signed rule by coefficient sign; applied change through the bound functions"""
+def stdp_expected(case, ent):
+    """per step the (potentiating, depressing) parts the documented signed rule prescribes for this cell with ITS effective
+    hyperparameters: every term goes to the side given by the sign of its coefficient (None: no per-sample statement)"""
     hp, T, B = case["hp"], len(case["pre"]), case["B"]
     red = eff_reduction(case)
     sig, gam = case.get("signal"), abs(case.get("scale", 1.0))
-    sigtr = {"trainer": case["trainer"]}
-    for ent in ents:
-        e = ent["idx"]
-        AD = stdp_terms(case, ent)
+    AD = stdp_terms(case, ent)
+    out = []
+    for t in range(T):
+        As, Ds = [AD[b][0][t] for b in range(B)], [AD[b][1][t] for b in range(B)]
+        want_p = want_n = 0.0
+        if sig is None or not isinstance(sig[t], list):
+            m = 1.0 if sig is None else sig[t]
+            mag = 1.0 if sig is None else abs(sig[t]) * gam
+            for lr, xs in ((hp["lr_post"], As), (hp["lr_pre"], Ds)):
+                v = abs(lr) * mag * red_apply(red, xs)
+                if lr * m >= 0:
+                    want_p += v
+                else:
+                    want_n += v
+        else:
+            if red != "sum":
+                out.append(None)  # per-sample rewards split the batch before reducing: only the sum is a per-sample statement
+                continue
+            for b in range(B):
+                for lr, x in ((hp["lr_post"], As[b]), (hp["lr_pre"], Ds[b])):
+                    c = lr * sig[t][b] * gam * x
+                    if c >= 0:
+                        want_p += c
+                    else:
+                        want_n -= c
+        out.append((want_p, want_n))
+    return out
+
+
+def oracle_stdp_multi(members, impl):
+    """parts >= 0; parts = split of the signed rule by coefficient sign, summed over the cells that share the accumulator;
+    applied change through the bound functions.  members: [(case, ents)]"""
+    case0, ents0 = members[0]
+    T = len(case0["pre"])
+    sig = case0.get("signal")
+    sigtr = {"trainer": case0["trainer"]}
+    for k, ent0 in enumerate(ents0):
+        e = ent0["idx"]
+        exps = [stdp_expected(case, ents[k]) for case, ents in members]
         acc_p = acc_n = 0.0
         for t in range(T):
             st = impl["steps"][t]
@@ -549,38 +626,25 @@ def oracle_stdp(case, impl, ents):
             gn = 0.0 if st["neg"] is None else F.dec_float(st["neg"][e])
             acc_p += gp
             acc_n += gn
-            As, Ds = [AD[b][0][t] for b in range(B)], [AD[b][1][t] for b in range(B)]
-            want_p = want_n = 0.0
-            if sig is None or not isinstance(sig[t], list):
-                m = 1.0 if sig is None else sig[t]
-                mag = 1.0 if sig is None else abs(sig[t]) * gam
-                for lr, xs in ((hp["lr_post"], As), (hp["lr_pre"], Ds)):
-                    v = abs(lr) * mag * red_apply(red, xs)
-                    if lr * m >= 0:
-                        want_p += v
-                    else:
-                        want_n += v
-            else:
-                if red != "sum":
-                    continue      # per-sample rewards split the batch before reducing: only the sum is a per-sample statement
-                for b in range(B):
-                    for lr, x in ((hp["lr_post"], As[b]), (hp["lr_pre"], Ds[b])):
-                        c = lr * sig[t][b] * gam * x
-                        if c >= 0:
-                            want_p += c
-                        else:
-                            want_n -= c
+            if any(x[t] is None for x in exps):
+                continue
+            want_p, want_n = sum(x[t][0] for x in exps), sum(x[t][1] for x in exps)
             for nm, got, want in (("potentiating", gp, want_p), ("depressing", gn, want_n)):
                 if not F.close(got, want, rel=1e-9, ab=1e-11):
                     return ({"what": f"{nm} part differs from the split of the documented signed rule", "step": t, "element": e,
-                             "got": got, "want": want, "signs": [hp["lr_post"], hp["lr_pre"]],
-                             "signal": None if sig is None else sig[t]}, dict(sigtr, kind="split"))
+                             "got": got, "want": want, "signs": [[c["hp"]["lr_post"], c["hp"]["lr_pre"]] for c, _ in members],
+                             "per_cell_expected": [x[t] for x in exps], "signal": None if sig is None else sig[t]},
+                            dict(sigtr, kind="split"))
         bef, aft = decl(impl["before"]), decl(impl["after"])
-        want = bef[e] + bounded_change(case.get("bound"), bef[e], acc_p, acc_n)
+        want = bef[e] + bounded_change(case0.get("bound"), bef[e], acc_p, acc_n)
         if not F.close(aft[e], want, rel=1e-9, ab=1e-10):
             return ({"what": "applied change != upper(param, pos) - lower(param, neg)", "element": e, "before": bef[e],
                      "after": aft[e], "want": want, "pos": acc_p, "neg": acc_n}, dict(sigtr, kind="bound_routing"))
     return None
+
+
+def oracle_stdp(case, impl, ents):
+    return oracle_stdp_multi([(case, ents)], impl)
 
 
 # ------------------------------------------------------------------ delay-adjusted / kernel stream (C18 machinery)
@@ -603,6 +667,8 @@ def gen_cell(rng, cls, signs):
     a, b = ("lr_post", "lr_pre") if cls in c18.KER else ("lr_pos", "lr_neg")
     t[a] = signs[0] * rng.choice([1.0, 0.5, 0.3, 0.7])
     t[b] = signs[1] * rng.choice([1.0, 0.5, 0.25])
+    for k in (a, b):        # the C18 generator may have tagged the old values with an (integer) argument type
+        (t.get("types") or {}).pop(k, None)
     return c
 
 
@@ -719,13 +785,142 @@ def gen_stdp_group(rng, gid, trainer, signs):
     return cells
 
 
+def change_key(rng, c, k, signs):
+    """give cell c a different value of hyperparameter k (recorded as an override)"""
+    hp = c["hp"]
+    if k == "mode":
+        c["mode"] = "nearest" if c["mode"] == "cumulative" else "cumulative"
+    elif k == "reduction":
+        cur = eff_reduction(c)
+        c["reduction"] = rng.choice([r for r in ("sum", "mean", "amax") if r != cur])
+    elif k == "delayed":
+        c["delayed"] = not c["delayed"]
+    elif k.startswith("tc"):
+        hp[k] = hp[k] * rng.choice([0.5, 1.25, 0.8])
+        if k.endswith("_slow"):
+            hp[k] = max(hp[k], 1.5 * hp[k[:-5]])
+        elif k in ("tc_post", "tc_pre") and (k + "_slow") in hp:
+            hp[k] = min(hp[k], 0.6 * hp[k + "_slow"])
+    else:
+        hp[k] = rng.choice([1, 1, -1]) * hp[k] * rng.choice([0.5, 0.1, 1.5])
+    if k not in c["override_keys"]:
+        c["override_keys"] = c["override_keys"] + [k]
+
+
+def gen_stdp_biclique(rng, gid, trainer, signs, q):
+    """ONE trainer object on ONE Biclique layer: 2 connections x 2 neuron groups, all four cells registered with per-cell
+    overrides.  Cells (0,j) and (1,j) share neuron group j and differ in exactly ONE hyperparameter k1; cells (i,0) and (i,1)
+    share connection i (and its accumulator) and differ in exactly one hyperparameter k2: every other monitor of such a
+    pair is poolable (equal tags), the one depending on the differing hyperparameter is not.  k1, k2 rotate with q."""
+    base = gen_stdp(rng, trainer, signs)
+    defaults = {k: base[k] for k in ("trainer", "mode", "hp", "delayed", "reduction")}
+    B, T, dt = base["B"], len(base["pre"]), base["dt"]
+    n_out = rng.randint(1, 2)
+    persample = base["signal"] is not None and isinstance(base["signal"][0], list)
+    allowed = [k for k in STDP_KEYS[trainer] if not (persample and k == "reduction")]
+    k1, k2 = allowed[q % len(allowed)], allowed[(q + 2) % len(allowed)]
+    p = rng.choice([0.3, 0.5, 0.8])
+    conns = []
+    for i in range(2):
+        n_in = rng.randint(1, 2)
+        kmax = rng.choice([None, None, 2])
+        conns.append({"conn": "dense", "n_in": n_in, "n_out": n_out, "kmax": kmax,
+                      "delays": None if kmax is None else [[rng.randint(0, kmax) for _ in range(n_in)] for _ in range(n_out)],
+                      "w0": rng.choice([0.5, 0.3, 1.0, 0.0]), "bound": gen_bound(rng),
+                      "pre": [[[int(rng.random() < p) for _ in range(n_in)] for _ in range(B)] for _ in range(T)]})
+    posts = [[[[int(rng.random() < p) for _ in range(n_out)] for _ in range(B)] for _ in range(T)] for _ in range(2)]
+    # cell (0,0): a random subset of overrides with fresh values
+    c00 = {"trainer": trainer, "hp": dict(defaults["hp"]), "mode": defaults["mode"], "delayed": defaults["delayed"], "reduction": defaults["reduction"],
+           "override_keys": []}
+    for k in allowed:
+        if k not in (k1, k2) and rng.random() < 0.3:
+            change_key(rng, c00, k, signs)
+    grid = {(0, 0): c00}
+    grid[(1, 0)] = copy.deepcopy(c00)
+    change_key(rng, grid[(1, 0)], k1, signs)
+    grid[(0, 1)] = copy.deepcopy(c00)
+    change_key(rng, grid[(0, 1)], k2, signs)
+    grid[(1, 1)] = copy.deepcopy(grid[(1, 0)])
+    change_key(rng, grid[(1, 1)], k2, signs)
+    if rng.random() < 0.5:
+        # overrides that merely restate the trainer default are still overrides
+        grid[(0, 0)]["override_keys"] = sorted(set(grid[(0, 0)]["override_keys"]) | {k1})
+    cells = []
+    for (i, j) in ((0, 0), (0, 1), (1, 0), (1, 1)):
+        c = {"kind": "stdp", "trainer": trainer, "dt": dt, "B": B, "post": posts[j], "signal": base["signal"], "scale": base["scale"],
+             "bic": [i, j], "layout": "biclique", "differs": {"sharing_neuron": k1, "sharing_connection": k2}}
+        c.update(conns[i])
+        c.update(grid[(i, j)])
+        c.update(group=gid, family="stdp", defaults=defaults)
+        cells.append(c)
+    return cells
+
+
+def gen_homeo_biclique(rng, gid, q):
+    """ONE LinearHomeostasis object on ONE Biclique layer (2 dense connections x 2 neuron groups, all four cells registered).
+    Cells (0,j), (1,j) share neuron group j (their spike_rate monitors are poolable: the only tag is dt) and differ in
+    exactly one hyperparameter k1; cells (i,0), (i,1) share connection i and differ in exactly one hyperparameter k2 -
+    unless that is `param` they write into the SAME accumulator.  k1, k2 rotate over plasticity / target / param /
+    reduction with q."""
+    keys = ["plasticity", "target", "param", "reduction"]
+    k1, k2 = keys[q % 4], keys[(q // 4 + q + 1) % 4]
+    defaults = {"plasticity": rng.choice(LAMS), "param": rng.choice(["weight", "weight", "bias", "delay"]),
+                "reduction": rng.choice([None, "mean", "sum", "amax"]), "target_ctor": rng.choice(TARGETS)}
+    B, T, dt = rng.randint(1, 3), rng.randint(1, 6), rng.choice([1.0, 0.5])
+    n_out = rng.randint(1, 2)
+    n_ins = [rng.randint(1, 2), rng.randint(1, 2)]
+    probs = [rng.choice([0.1, 0.5, 0.9]) for _ in range(2)]
+    posts = [[[[int(rng.random() < probs[j]) for _ in range(n_out)] for _ in range(B)] for _ in range(T)] for j in range(2)]
+
+    def change(c, k):
+        if k == "plasticity":
+            c["plasticity"] = rng.choice([1, -1]) * c["plasticity"] * rng.choice([0.5, 2.0, 0.3])
+        elif k == "target":
+            c["target_reg"] = rng.choice([x for x in TARGETS if x != c.get("target_reg", defaults["target_ctor"])])
+        elif k == "param":
+            c["param"] = rng.choice([x for x in ("weight", "bias", "delay") if x != c["param"]])
+        else:
+            c["reduction"] = rng.choice([x for x in ("mean", "sum", "amax") if x != (c["reduction"] or "mean")])
+        if k not in c["override_keys"]:
+            c["override_keys"] = c["override_keys"] + [k]
+    c00 = {"plasticity": defaults["plasticity"], "param": defaults["param"], "reduction": defaults["reduction"], "override_keys": []}
+    for k in keys:
+        if k not in (k1, k2) and rng.random() < 0.3:
+            change(c00, k)
+    grid = {(0, 0): c00}
+    grid[(1, 0)] = copy.deepcopy(c00)
+    change(grid[(1, 0)], k1)
+    grid[(0, 1)] = copy.deepcopy(c00)
+    change(grid[(0, 1)], k2)
+    grid[(1, 1)] = copy.deepcopy(grid[(1, 0)])
+    change(grid[(1, 1)], k2)
+    x0 = {(i, prm): (rng.choice([1.0, 0.5]) if prm == "delay" else rng.choice([0.5, 0.3, 1.0, -0.25]))
+          for i in range(2) for prm in ("weight", "bias", "delay")}
+    bnd = {(i, prm): gen_bound(rng) for i in range(2) for prm in ("weight", "bias", "delay")}
+    mode = rng.choice(["none", "all", "mixed"])
+    fwd = [None if mode == "none" or (mode == "mixed" and rng.random() < 0.5) else rng.choice(TARGETS) for _ in range(T)]
+    cells = []
+    for (i, j) in ((0, 0), (0, 1), (1, 0), (1, 1)):
+        c = {"kind": "homeo", "conn": "dense", "n_in": n_ins[i], "n_out": n_out, "B": B, "dt": dt, "kmax": 3, "post": posts[j],
+             "bic": [i, j], "layout": "biclique", "differs": {"sharing_neuron": k1, "sharing_connection": k2}, "fwd_targets": fwd}
+        c.update(grid[(i, j)])
+        c["x0"], c["bound"] = x0[(i, c["param"])], bnd[(i, c["param"])]
+        c.update(group=gid, family="homeo", defaults=defaults)
+        cells.append(c)
+    annotate_homeo_group(defaults, cells)
+    return cells
+
+
 def group_of(cases, c):
     """the replayable unit of a failing cell: its whole group when it shares the trainer object with other cells"""
     if c.get("group") is None:
         return strip(c)
     members = [x for x in cases if x.get("group") == c["group"]]
-    return {"kind": "group", "family": c["family"], "defaults": c["defaults"], "cells": [strip(x) for x in members],
-            "failing_cell": [id(x) for x in members].index(id(c))}
+    g = {"kind": "group", "family": c["family"], "defaults": c["defaults"], "cells": [strip(x) for x in members],
+         "failing_cell": [id(x) for x in members].index(id(c))}
+    if c.get("layout"):
+        g["layout"] = c["layout"]
+    return g
 
 
 def expand_groups(cases):
@@ -757,6 +952,8 @@ def run_impl_grouped(cases):
             if gid not in seen:
                 seen[gid] = len(payload)
                 payload.append({"kind": "group", "family": c["family"], "defaults": c["defaults"], "cells": []})
+                if c.get("layout"):
+                    payload[-1]["layout"] = c["layout"]
             k = seen[gid]
             slots.append((k, len(payload[k]["cells"])))
             payload[k]["cells"].append({kk: v for kk, v in c.items() if kk not in ("defaults", "tg_used", "tg_doc", "grp_dflts", "grp_index")})
@@ -839,8 +1036,17 @@ def evaluate(cases):
             continue
         if c["kind"] == "homeo":
             a, n = spans[i]
-            d = compare_homeo(c, r, model[a:a + n])
-            ofl = oracle_homeo(c, r)
+            extra_m, extra_c = [], []
+            if c.get("bic") is not None:
+                same_acc = [k for k, x in enumerate(cases) if x.get("group") == c["group"] and x["bic"][0] == c["bic"][0]
+                            and x["param"] == c["param"]]
+                if same_acc[0] != i:
+                    continue       # judged with the first cell writing into its accumulator
+                for k in same_acc[1:]:
+                    extra_m.append((cases[k], impl[k], model[spans[k][0]:spans[k][0] + spans[k][1]]))
+                    extra_c.append(cases[k])
+            d = compare_homeo(c, r, model[a:a + n], extra_m)
+            ofl = oracle_homeo(c, r, extra_c)
             if d is not None and not ofl and isinstance(d, dict) and d.get("what") in ("neg part", "aneg part", "parameter after update()"):
                 # the model mirrors the known defect (negative-valued depressing part); an implementation that hands the
                 # documented non-negative magnitude instead satisfies the property's oracle: not an alarm (DESIGN section 5)
@@ -851,6 +1057,18 @@ def evaluate(cases):
             for det, sg in ofl:
                 fails.append({"case": group_of(cases, c), "detail": det,
                               "signature": dict(sg, overrides=bool(c.get("override_keys"))) if c.get("group") is not None else sg})
+        elif c["kind"] == "stdp" and c.get("bic") is not None:
+            if any(x.get("group") == c["group"] and x["bic"][0] == c["bic"][0] for x in cases[:i]):
+                continue       # judged with the first cell on its connection
+            idxs = [k for k, x in enumerate(cases) if x.get("group") == c["group"] and x["bic"][0] == c["bic"][0]]
+            mem = [(cases[k], stdp_entries(cases[k]), model[spans[k][0]:spans[k][0] + spans[k][1]]) for k in idxs]
+            d = compare_stdp_multi(mem, r)
+            o = oracle_stdp_multi([(cc, ee) for cc, ee, _ in mem], r)
+            if d is not None:
+                mismatches.append({"case": group_of(cases, c), "detail": dict(d, connection=c["bic"][0])})
+            if o is not None:
+                fails.append({"case": group_of(cases, c), "detail": dict(o[0], connection=c["bic"][0], differs=c["differs"]),
+                              "signature": dict(o[1], layout="biclique")})
         elif c["kind"] == "stdp":
             a, n = spans[i]
             ents = stdp_entries(c)
@@ -912,20 +1130,26 @@ def run(ctx):
     quick = ctx["tier"] == "quick"
     c18.STATS.clear()
     REPAIRED[0] = 0
-    n_h, n_s, n_c = (90, 70, 24) if quick else (1200, 1200, 400)
-    n_hg, n_sg = (36, 48) if quick else (500, 600)
+    n_h, n_s, n_c = (70, 50, 24) if quick else (1200, 1200, 400)
+    n_hg, n_sg, n_bg, n_hb = (36, 36, 42, 16) if quick else (500, 500, 396, 240)
     cases = expand_groups(load_corpus()) + [copy.deepcopy(WITNESS)]
     cases += [gen_homeo(rng) for _ in range(n_h)]
     gid = 0
     for k in range(n_hg):       # one LinearHomeostasis object, several cells with overrides, all target combinations
         gid += 1
         cases += gen_homeo_group(rng, gid, expect_error=(k % 12 == 11))
+    for k in range(n_hb):       # one LinearHomeostasis object on one Biclique layer
+        gid += 1
+        cases += gen_homeo_biclique(rng, gid, k)
     # every trainer x sign mode at least twice
     cases += [gen_stdp(rng, tr, sg) for tr in TRAINERS for sg in SIGNS for _ in range(1 if quick else 6)]
     cases += [gen_stdp(rng) for _ in range(n_s)]
     for k in range(n_sg):       # one trainer object, several cells with overrides: every trainer x default sign mode in turn
         gid += 1
         cases += gen_stdp_group(rng, gid, TRAINERS[k % 6], SIGNS[(k // 6) % 4])
+    for k in range(n_bg):       # one trainer on one Biclique layer: cells sharing a neuron group / a connection
+        gid += 1
+        cases += gen_stdp_biclique(rng, gid, TRAINERS[k % 6], SIGNS[(k // 6) % 4], k // 6)
     cases += exhaustive_stdp(2 if quick else 3)
     cases += [gen_cell(rng, cls, sg) for cls in c18.TWO + c18.KER + c18.THREE for sg in SIGNS for _ in range(2 if quick else 12)]
     cases += [c18.gen_case(rng) for _ in range(n_c)]
@@ -969,7 +1193,12 @@ def run(ctx):
                  "registered with per-cell keyword overrides of every hyperparameter register_cell accepts (learning rates of the "
                  "opposite sign mode, time constants, trace mode, batch reduction, delayed; plasticity, target, param), one cell "
                  "without overrides, all combinations of constructor / per-cell / forward(target) targets incl. None and the "
-                 "RuntimeError when no target exists; the oracle uses each cell's effective hyperparameters; "
+                 "RuntimeError when no target exists; STDP-family trainers additionally on Biclique layers (2 connections x 2 neuron "
+                 "groups, all four cells registered: cells sharing a neuron group or a connection - and its accumulator - that "
+                 "differ in exactly one hyperparameter, rotating over all of them, so that every other monitor of the pair is "
+                 "poolable), and LinearHomeostasis on the same Biclique layout (cells sharing a neuron group pool the "
+                 "spike_rate monitor; cells sharing a connection and a parameter share the accumulator); the oracle uses each "
+                 "cell's effective hyperparameters; "
                  "non-trivial = >= 2 steps (STDP: "
                  "with a pre and a post spike)" % (2 if quick else 3)),
         "samples": [strip(c) for c in (homeo[1:2] + stdp[:1])],
@@ -990,6 +1219,9 @@ def run(ctx):
                                             ("absent" if "target" not in c["override_keys"] else ("None" if c.get("target_reg") is None else "set")),
                                             "mixed" if len({f is None for f in c["fwd_targets"]}) == 2 else ("None" if c["fwd_targets"][0] is None else "set"))
             for c in cases if c["kind"] == "homeo" and c.get("group") is not None)),
+        "biclique_groups_cells_sharing_neuron_or_connection": len({c["group"] for c in cases if c.get("bic") is not None}),
+        "biclique_differing_key_sharing_neuron": dict(Counter(c["differs"]["sharing_neuron"] for c in cases if c.get("bic") == [0, 0])),
+        "biclique_differing_key_sharing_connection": dict(Counter(c["differs"]["sharing_connection"] for c in cases if c.get("bic") == [0, 0])),
         "expected_error_groups": sum(1 for c in cases if c.get("expect_error")),
         "homeo_cases_where_impl_satisfies_the_oracle_but_not_the_defect_model": REPAIRED[0],
         "finding_listed": known_listed(),
